@@ -112,9 +112,11 @@ pub fn gen_amount(t: &mut Tape, dom: Dom) -> AmountT {
             s * mant * crate::exact::pow2(e)
         }
         5 => {
-            // the last ten: boundaries of the integer types (a shortcut
+            // the neighbours of one, then boundaries of the integer types (a shortcut
             // through `as u64` or `as i64` saturates exactly there)
-            const EXT: [f64; 22] = [
+            const EXT: [f64; 24] = [
+                0.9999999999999999, // the neighbours of one
+                1.0000000000000002,
                 2147483648.0,
                 4294967296.0,
                 9223372036854775808.0,
